@@ -93,10 +93,30 @@ Theorem C10_lex_roundtrip_continuation : forall dec c, chunk_ok dec c -> lex_lin
 Proof. exact lex_cont. Qed.
 Print Assumptions C10_lex_roundtrip_continuation.
 
+Theorem C10_lex_roundtrip_blank : forall first ws, all_space ws -> lex_line first ws = LBlank.
+Proof. exact (fun first ws H => lex_blank first ws H (or_intror I)). Qed.
+Print Assumptions C10_lex_roundtrip_blank.
+Theorem C10_lex_roundtrip_plural : forall dec i ws c, i < 10 -> all_space ws -> ws <> [] -> chunk_ok dec c ->
+  lex_line false (mx_cur i ws c) = LLine false false (AProc Ymx (mx_cur i ws c)).
+Proof. exact lex_mx. Qed.
+Print Assumptions C10_lex_roundtrip_plural.
+(* # text, #. text (any text without leading / trailing white space), #: refs and #, flags (any body ending in a
+   non-space): the token is the line *)
+Theorem C10_lex_roundtrip_comment : forall t0 y sep s,
+  In (t0, y) [([35], Ytc); ([35; 46], Ygc); ([35; 58], Yoc); ([35; 44], Yfl)] ->
+  is_space sep -> trimmed (t0 ++ sep :: s) ->
+  lex_line false (t0 ++ sep :: s) = LLine false true (AProc y (t0 ++ sep :: s)).
+Proof. exact lex_hash_line. Qed.
+Print Assumptions C10_lex_roundtrip_comment.
+Theorem C10_lex_roundtrip_prev_obsolete : forall s, ends_word s -> trimmed ([35; 126; 124] ++ s) ->
+  lex_line false ([35; 126; 124] ++ s) = LPrevObsolete.
+Proof. exact lex_prev_obsolete. Qed.
+Print Assumptions C10_lex_roundtrip_prev_obsolete.
+
 (* the composition, with the remaining part of the lexer round trip as its hypothesis *)
 Theorem C10_load_render_partial : forall O ws c lines,
   ascii_compatible (o_dec O) -> ~ In 34 ws -> scatalog_ok (o_dec O) c -> nplurals_le_10 c ->
-  ext (toks_catalog ws c) (lex_lines true lines) ->       (* MISSING LEMMA: every rendered line lexes to its token *)
+  ext (toks_catalog ws c) (lex_lines true lines) ->       (* MISSING LEMMA: every rendered line lexes to its token: proved above per line kind except #~ and #| prefixed lines; Codecs.open not composed *)
   parse_lines O lines = Ok (mkPo (fst (catalog_value c)) (map (fun e => to_entry (tool_view e)) (snd (catalog_value c))) false).
 Proof. exact (fun O ws c lines => machine_roundtrip O ws c (lex_lines true lines)). Qed.
 Print Assumptions C10_load_render_partial.
